@@ -134,7 +134,9 @@ pub fn run(args: &Args, rep: &mut Report) {
             Ok(got) => {
                 rep.count(if got { "sets.accepted" } else { "sets.rejected" });
                 if got != want {
-                    rep.violation("C16", "set-limits", format!("check_set -> {}, documented limits -> {} for {dims}", if got { "accept" } else { "reject" }, if want { "accept" } else { "reject" }), case());
+                    let mut full = case();
+                    full["set"] = serde_json::to_value(&set).unwrap_or_default();
+                    rep.violation("C16", "set-limits", format!("check_set -> {}, documented limits -> {} for {dims}", if got { "accept" } else { "reject" }, if want { "accept" } else { "reject" }), full);
                 }
             }
         }
@@ -169,7 +171,7 @@ pub fn run(args: &Args, rep: &mut Report) {
             .collect();
         let want = np <= 100 && preds.iter().all(spec_predicate);
         rep.evaluations += 1;
-        let cc = || json!({"engine": "limits", "kind": "contract", "predicates": np, "invalid_predicate_at": bad_at});
+        let cc = || json!({"engine": "limits", "kind": "contract", "predicates": np, "invalid_predicate_at": bad_at, "member_shapes": preds.iter().map(|p| (p.nodes.len(), p.edges.len())).collect::<Vec<_>>()});
         if cpred::check_contract(&preds).is_ok() != want {
             rep.violation("C16", "contract-limits", format!("check_contract disagrees with the limits for {np} predicates (invalid one at {bad_at:?})"), cc());
         }
@@ -198,7 +200,7 @@ pub fn run(args: &Args, rep: &mut Report) {
                 .and_then(|s| secp.recover_ecdsa(&secp256k1::Message::from_digest(addr), &s).ok())
                 .is_some();
             rep.evaluations += 1;
-            let sc = || json!({"engine": "limits", "kind": "signed-contract", "signature": signed.signature.to_string(), "predicates": signed.contract.predicates.len()});
+            let sc = || json!({"engine": "limits", "kind": "signed-contract", "signature": signed.signature.to_string(), "predicates": signed.contract.predicates.len(), "signed_contract": signed});
             match catch(|| cpred::check_signed_contract(&signed).is_ok()) {
                 Err(p) => rep.violation("C06", "panic", format!("check_signed_contract panicked: {p}"), sc()),
                 Ok(got) => {
@@ -212,4 +214,66 @@ pub fn run(args: &Args, rep: &mut Report) {
         }
     }
     rep.sample(2, || json!({"kind": "set", "dims": {"solutions": 100, "total_mutations": 1001}, "note": "each case puts one dimension at 0 / 1 / limit-1 / limit / limit+1 and keeps the others small; plus predicates (nodes/edges), contracts (predicate count, one invalid member), signed contracts (genuine and corrupted signatures)"}));
+}
+
+fn shape_pred(nn: usize, ne: usize) -> Predicate {
+    Predicate {
+        nodes: (0..nn).map(|i| Node { edge_start: u16::MAX, program_address: ContentAddress([i as u8; 32]) }).collect(),
+        edges: (0..ne).map(|_| 0).collect(),
+    }
+}
+
+/// Replay a recorded case from its data (violations carry the full set / member shapes / signed contract).
+pub fn replay(case: &serde_json::Value, rep: &mut Report) {
+    crate::vmcase::install_panic_hook();
+    let c = || case.clone();
+    match case.get("kind").and_then(|k| k.as_str()).unwrap_or("") {
+        "set" => {
+            let Some(set) = case.get("set").cloned().and_then(|s| serde_json::from_value::<SolutionSet>(s).ok()) else {
+                rep.inconclusive.push("the recorded case does not carry the set (only its dimensions)".into());
+                return;
+            };
+            let want = spec_set(&set);
+            match catch(|| csol::check_set(&set).is_ok()) {
+                Err(p) => rep.violation("C06", "panic", format!("check_set panicked: {p}"), c()),
+                Ok(got) if got != want => rep.violation("C16", "set-limits", format!("check_set -> {got}, documented limits -> {want}"), c()),
+                Ok(_) => {}
+            }
+        }
+        "predicate" => {
+            let (nn, ne) = (case["nodes"].as_u64().unwrap_or(0) as usize, case["edges"].as_u64().unwrap_or(0) as usize);
+            let p = shape_pred(nn, ne);
+            if cpred::check(&p).is_ok() != spec_predicate(&p) {
+                rep.violation("C16", "predicate-limits", format!("predicate::check disagrees with the limits for {nn} nodes / {ne} edges"), c());
+            }
+        }
+        "contract" => {
+            let shapes: Vec<(usize, usize)> = serde_json::from_value(case["member_shapes"].clone()).unwrap_or_default();
+            let preds: Vec<Predicate> = shapes.iter().map(|(n, e)| shape_pred(*n, *e)).collect();
+            let want = preds.len() <= 100 && preds.iter().all(spec_predicate);
+            if cpred::check_contract(&preds).is_ok() != want {
+                rep.violation("C16", "contract-limits", format!("check_contract disagrees with the limits for {} predicates", preds.len()), c());
+            }
+        }
+        "signed-contract" => {
+            let Some(signed) = case.get("signed_contract").cloned().and_then(|s| serde_json::from_value::<SignedContract>(s).ok()) else {
+                rep.inconclusive.push("cannot read the recorded signed contract".into());
+                return;
+            };
+            let secp = secp256k1::Secp256k1::new();
+            let valid_contract = signed.contract.predicates.len() <= 100 && signed.contract.predicates.iter().all(spec_predicate);
+            let addr = crate::formats::own_contract_addr(&signed.contract);
+            let recoverable = secp256k1::ecdsa::RecoveryId::try_from(signed.signature.1 as i32)
+                .ok()
+                .and_then(|id| secp256k1::ecdsa::RecoverableSignature::from_compact(&signed.signature.0, id).ok())
+                .and_then(|s| secp.recover_ecdsa(&secp256k1::Message::from_digest(addr), &s).ok())
+                .is_some();
+            match catch(|| cpred::check_signed_contract(&signed).is_ok()) {
+                Err(p) => rep.violation("C06", "panic", format!("check_signed_contract panicked: {p}"), c()),
+                Ok(got) if got != (recoverable && valid_contract) => rep.violation("C16", "signed-contract", format!("check_signed_contract -> {got}, recoverable signature: {recoverable}, contract within limits: {valid_contract}"), c()),
+                Ok(_) => {}
+            }
+        }
+        other => rep.inconclusive.push(format!("no replay for limits case kind '{other}'")),
+    }
 }
